@@ -535,6 +535,8 @@ def run_custom(pid, spec, tier, seed, replay):
                        "samples": samples or ["(none)"], "exhaustive": True, "configurations": configs, "port_functions_declared": sorted(port_funcs),
                        "known_findings_matched": [s_ for s_ in viols if s_ in known], "violation_signatures": [v["sig"] for v in unlisted]},
           "assumptions": spec.get("assumptions", []), "wall_s": round(wall, 3), "violations": len(unlisted), "technique": spec.get("technique", "")}
-    json.dump(ev, open(os.path.join(VERIF, "evidence", pid + ".json"), "w"), indent=1)
+    evdir = os.path.join(VERIF, "evidence") if REPO == "/repo" else os.path.join(VERIF, "build", "evidence-scratch")
+    os.makedirs(evdir, exist_ok=True)
+    json.dump(ev, open(os.path.join(evdir, pid + ".json"), "w"), indent=1)
     print("%s %s: %d compilations/links/lint checks over %d configurations, %d distinct outcomes, wall=%.1fs violations=%d known=%d" % (pid, tier, evals, len(configs), len(outcomes), wall, len(unlisted), len(viols) - len(unlisted)))
     return 1 if unlisted else 0
